@@ -286,6 +286,7 @@ func (b *BloomSearchEngine) Stop(ctx context.Context) error {
 	b.stateMu.Lock()
 	b.stopped = true
 	b.stateMu.Unlock()
+	verifPoint("stop.flagged")
 
 	// Signal workers to stop
 	b.cancel()
